@@ -898,6 +898,7 @@ func updateNodeCondition(ctx context.Context, c client.Client, nodeName string, 
 }
 
 func (n *ReconcileNode) validateENI(ctx context.Context, option *eniOptions, eniTypes []eniTypeKey) bool {
+	option.noGrow = false
 	if !lo.Contains(eniTypes, option.eniTypeKey) {
 		return false
 	}
@@ -915,6 +916,7 @@ func (n *ReconcileNode) validateENI(ctx context.Context, option *eniOptions, eni
 
 		if vsw.AvailableIPCount <= 0 {
 			option.errors = append(option.errors, vswitch.ErrNoAvailableVSwitch)
+			option.noGrow = true
 			return false
 		}
 
@@ -940,6 +942,16 @@ func assignEniWithOptions(ctx context.Context, node *networkv1beta1.Node, toAdd 
 	// already ordered the eni
 	for _, option := range options {
 		if !filterFunc(option) {
+			if option.noGrow && option.eniRef != nil {
+				// the eni can not grow, but the idle ip it holds is still usable. Not counting it makes the
+				// pool add ip elsewhere which adjustPool (it counts every idle ip) releases again, forever.
+				if toAddIPv4 > 0 {
+					toAddIPv4 -= len(getAllocatable(option.eniRef.IPv4))
+				}
+				if toAddIPv6 > 0 {
+					toAddIPv6 -= len(getAllocatable(option.eniRef.IPv6))
+				}
+			}
 			continue
 		}
 
